@@ -162,6 +162,12 @@ let minigo_line l =
     | "i" -> let c = cond () in let a = stmt () in let b = stmt () in SIf (c, a, b)
     | "w" -> let c = cond () in let b = stmt () in SWhile (c, b)
     | "r" -> SReturn (atom ())
+    | "R" -> let a = atom () in let e = atom () in SReturn2 (a, e)
+    | "C" -> let cs = nexti () in
+             let k = next () in let x = if k = "-" then None else Some (var_of k) in
+             let k2 = next () in let xe = if k2 = "-" then None else Some (var_of k2) in
+             let f = nexti () in let n = nexti () in
+             let args = List.init n (fun _ -> atom ()) in SCall2 (nat_of_int cs, x, xe, nat_of_int f, args)
     | "v" -> let k = next () in let x = var_of k in let ik = nexti () in let j = nexti () in
              SConv (x, nat_of_int ik, nat_of_int j)
     | "j" -> let cs = nexti () in let d = nexti () in
@@ -191,7 +197,10 @@ let minigo_line l =
       List.init n (fun _ -> let nm = nexti () in List.init nm (fun _ -> nat_of_int (nexti ())))
     end else [] in
   let prog = { p_funcs = funcs; p_ginit = ginit; p_impls = impls } in
-  let prod = function PNil -> "0,0" | PNever -> "1,0" | PStale -> "1,1" | PSite s -> Printf.sprintf "2,%d" (int_of_nat (enc s)) in
+  let prod = function
+    | PNil | PGuard (_, _, _) | PUng (_, _) -> "0,0" | PNever -> "1,0" | PStale -> "1,1"
+    | PSite s -> Printf.sprintf "2,%d" (int_of_nat (enc s))
+    | PChecked (f, _) -> Printf.sprintf "2,%d" (int_of_nat (enc (SResult f))) in
   let cons = function CAlways -> "0,0" | CSite s -> Printf.sprintf "2,%d" (int_of_nat (enc s)) in
   let trig t = Printf.sprintf "%d,%s,%s,%d" (int_of_nat t.s_id) (prod t.s_prod) (cons t.s_cons)
       (match t.s_ctrl with None -> -1 | Some s -> int_of_nat (enc s)) in
@@ -200,10 +209,10 @@ let minigo_line l =
   let afuel = nat_of_int 64 in
   let an = analyze_program afuel ctr pk prog in
   let head = match an with
-    | None -> Printf.sprintf "wf=%d guarded=%d an=0 gsafe=0 clocal=0 | | |" (if wf then 1 else 0) (if guarded prog then 1 else 0)
+    | None -> Printf.sprintf "wf=%d guarded=%d an=0 gsafe=0 clocal=0 nodel=0 | | |" (if wf then 1 else 0) (if guarded prog then 1 else 0)
     | Some r ->
-        Printf.sprintf "wf=%d guarded=%d an=1 gsafe=%d clocal=%d | %s | %s | %s" (if wf then 1 else 0) (if guarded prog then 1 else 0) (if r.r_gsafe then 1 else 0)
-          (if r.r_clocal then 1 else 0) (trigs r.r_decl)
+        Printf.sprintf "wf=%d guarded=%d an=1 gsafe=%d clocal=%d nodel=%d | %s | %s | %s" (if wf then 1 else 0) (if guarded prog then 1 else 0) (if r.r_gsafe then 1 else 0)
+          (if r.r_clocal then 1 else 0) (if r.r_nodel then 1 else 0) (trigs r.r_decl)
           (String.concat " / " (List.map trigs r.r_funcs)) (String.concat " / " (List.map trigs (r.r_dups @ r.r_affil))) in
   let inferred = String.concat "," (List.concat (List.mapi (fun i fd -> if infer_sem (nat_of_int 64) fd then [string_of_int i] else []) funcs)) in
   let head = head ^ " | " ^ inferred in
